@@ -8,6 +8,7 @@
 package main
 
 import (
+	"hash/fnv"
 	"encoding/json"
 	"fmt"
 	"os"
@@ -380,6 +381,10 @@ func main() {
 		if err := json.Unmarshal(raw, &c); err != nil {
 			return rt.Infra("bad case: " + err.Error())
 		}
-		return run(&c, env)
+		r := run(&c, env)
+		h := fnv.New64a()
+		h.Write(raw)
+		r.Sig = fmt.Sprintf("%016x", h.Sum64())
+		return r
 	})
 }
